@@ -798,7 +798,8 @@ impl CamtCase {
     pub fn generate(rng: &mut Rng, texts: &[&str]) -> CamtCase {
         let currency = rng.pick_str(&["CHF", "EUR", "USD"]).to_string();
         let cent = Q::from_parts(1, 2).unwrap();
-        let opening = Q::int(rng.range(0, 900000) as i128).mul(cent).unwrap();
+        // (one statement in eight opens at exactly zero: the opening-balance transaction is still there)
+        let opening = if rng.chance(1, 8) { Q::ZERO } else { Q::int(rng.range(0, 900000) as i128).mul(cent).unwrap() };
         let n = 1 + rng.usize(8);
         let mut day = NaiveDate::from_ymd_opt(2021, 10, 1).unwrap();
         let mut entries = Vec::new();
